@@ -237,7 +237,15 @@ Proof. exact S02_step_no_fault. Qed.
 Print Assumptions C02_sys_step_never_faults_partial.
 
 (* ---- affinity: with or without the hypotheses, every UP / DOWN / message callback of a
-   connection is emitted on the thread of the loop the connection was assigned to ------------- *)
+   connection is emitted on the thread of the loop the connection was assigned to.
+   What this PROVES: for callbacks run by a functor (connectEstablished, connectDestroyed,
+   forceCloseInLoop, the removeConnection hop) the model's assertInLoopThread tests are real tests
+   (thr = the loop whose queue held the functor) and these theorems + the no-fault theorem say that
+   the functor always sits in the connection's own loop.  For callbacks that come from a poller
+   event (messages, the DOWN of a peer close) the model DEFINES the thread to be k_loop k
+   (C02_event_thread_tied below): there the statement is carried by the generated facts
+   (the channel is built on / registered with / dispatched by the connection's loop) and by the
+   lock-step driver, which compares the thread of every callback of the real code ------------- *)
 Theorem C02_affinity : forall strict nio readd ops s obs, run strict (init_sys nio readd) ops = Ok (s, obs) ->
   forall thr c, In (OUp thr c) obs \/ In (ODown thr c) obs \/ In (OMsg thr c) obs ->
   exists k, getc s c = Some k /\ k_loop k = thr.
@@ -249,6 +257,28 @@ Theorem C02_affinity_step : forall strict s o s' obs, step strict s o = Ok (s', 
   exists k, getc s' c = Some k /\ k_loop k = thr.
 Proof. exact S02_affinity_step. Qed.
 Print Assumptions C02_affinity_step.
+
+(* the thread of a poller-event callback: by definition of ev_step it is k_loop of the connection; the four generated
+   facts say why that is the thread of the code: newConnection builds the connection on the loop getNextLoop() returned and
+   hands connectEstablished to that loop (accept: the loop recorded = the loop queued on), the connection's channel is
+   constructed on that loop, a channel registers only with its loop's poller on that loop's thread, and a loop's thread
+   dispatches exactly the channels its own poller reported *)
+Theorem C02_event_thread_tied :
+  server_conn_on_next_loop = true /\ conn_channel_on_conn_loop = true /\ channel_registers_with_its_loop = true /\
+  loop_dispatches_own_poller = true /\
+  (forall s s' o, accept s = Ok (s', o) ->
+     exists k, getc s' (length (s_conns s)) = Some k /\ k_st k <> Disconnected /\
+       ((k_loop k = 0 /\ o = [OUp 0 (length (s_conns s))]) \/
+        (k_loop k <> 0 /\ o = [] /\ forall v, getl s (k_loop k) = Some v ->
+           exists v', getl s' (k_loop k) = Some v' /\ q_pend v' = q_pend v ++ [TEstablish (length (s_conns s))]))) /\
+  (forall strict s c e s' o, ev_step strict s c e = Ok (s', o) ->
+     exists k, getc s c = Some k /\
+     forall thr c', In (OUp thr c') o \/ In (ODown thr c') o \/ In (OMsg thr c') o -> c' = c /\ thr = k_loop k).
+Proof.
+  exact (conj tie_server_conn_on_next_loop (conj tie_conn_channel_on_conn_loop (conj tie_channel_registers_with_its_loop
+        (conj tie_loop_dispatches_own_poller (conj accept_same_loop ev_step_thread))))).
+Qed.
+Print Assumptions C02_event_thread_tied.
 
 (* ---- exactly one UP, at most one DOWN, per connection, over the whole system ------------------
    cntU c obs / cntD c obs = number of OUp _ c / ODown _ c in obs.  Every run: they equal the
@@ -446,12 +476,17 @@ Theorem C02_gen_tie :
   server_establish_runInLoop = true /\ server_remove_hop_runInLoop = true /\ server_destroy_queueInLoop = true /\
   server_dtor_runInLoop = true /\ client_remove_queueInLoop = true /\ detail_remove_queueInLoop = true /\
   client_establish_direct = true /\ client_unique_before_copy = true /\ client_dtor_forceClose = true /\
-  socket_dtor_closes = true /\ channel_event_locks_tie = true /\ epoll_registers_empty_interest = false.
+  socket_dtor_closes = true /\ channel_event_locks_tie = true /\ epoll_registers_empty_interest = false /\
+  (* the pool's tear-down as C02_Model.step SrvDestroy / EndBatch build it in *)
+  loop_drains_after_while = false /\ loop_drain_ends_iteration = true /\ loopthread_dtor_quits_then_joins = true /\
+  server_dtor_waits_for_handoffs = false /\ server_owns_pool = true.
 Proof.
   exact (conj tie_server_establish_runInLoop (conj tie_server_remove_hop_runInLoop (conj tie_server_destroy_queueInLoop
         (conj tie_server_dtor_runInLoop (conj tie_client_remove_queueInLoop (conj tie_detail_remove_queueInLoop
         (conj tie_client_establish_direct (conj tie_client_unique_before_copy (conj tie_client_dtor_forceClose
-        (conj tie_socket_dtor_closes (conj tie_channel_event_locks_tie tie_epoll_registers_empty_interest))))))))))).
+        (conj tie_socket_dtor_closes (conj tie_channel_event_locks_tie (conj tie_epoll_registers_empty_interest
+        (conj tie_loop_drains_after_while (conj tie_loop_drain_ends_iteration (conj tie_loopthread_dtor_quits_then_joins
+        (conj tie_server_dtor_waits_for_handoffs tie_server_owns_pool)))))))))))))))).
 Qed.
 Print Assumptions C02_gen_tie.
 
